@@ -21,11 +21,14 @@ def configs(tier, seed):
         # every history kept apart (no state merging) on a small alphabet
         cfgs.append(("c07nm", "fs", [KEYS[0], KEYS[2]], ("D",), True, 3, seed))
         cfgs.append(("c07nm", "fsc4", [KEYS[0], KEYS[2]], ("D",), True, 3, seed))
+        cfgs.append(("c07p", "fs", [KEYS[0], KEYS[2]], ("P",), False, 4, seed))
+        cfgs.append(("c07p", "fsc4", [KEYS[0], KEYS[2]], ("P",), False, 4, seed))
     else:
         for b in ("fs", "fs+m", "fsc4", "fsc4+m"):
             cfgs.append(("c07", b, KEYS, ("s", "D", "P", "N", "E"), False, 3, seed))
         for b in ("fs", "fsc4"):
             cfgs.append(("c07", b, [KEYS[0], KEYS[2]], ("s", "D", "P"), False, 5, seed))
+            cfgs.append(("c07p", b, [KEYS[0], KEYS[2]], ("P",), False, 6, seed))
     return cfgs
 
 
